@@ -19,8 +19,10 @@ func fImports(m dsl.Matcher) {
 	m.Match(`$x.$y($*_)`).Where(m.File().Imports("strings") || m.File().Imports("fmt")).Report(`F:imports $x`)
 }
 
+// The blank identifier has no object: the library's IsGlobal filter dereferences nil on it (known finding,
+// exercised by filters_u1.go); it is excluded here so that the other rule groups keep running on such files.
 func fGlobal(m dsl.Matcher) {
-	m.Match(`$x = $_`, `$x++`, `$x += $_`).Where(m["x"].Node.Is(`Ident`) && m["x"].Object.IsGlobal()).Report(`F:global $x`)
+	m.Match(`$x = $_`, `$x++`, `$x += $_`).Where(m["x"].Node.Is(`Ident`) && !m["x"].Text.Matches(`^_$`) && m["x"].Object.IsGlobal()).Report(`F:global $x`)
 }
 
 func fObject(m dsl.Matcher) {
